@@ -20,8 +20,8 @@ func checkC03(r *Run) {
 	r6 := r.Rule("R-C03-6", "after a reconnect Resubscribe (if any) is queued before Retry")
 	r7 := r.Rule("R-C03-7", "API requests go through the task queue (R-C01-1)")
 	r8 := r.Rule("R-C03-8", "queued publishing is the default: the RetryClient created by NewReconnectClient has DirectlyPublishQoS0 unset, and nothing in the package sets it")
-	r2.Floor(8)
-	r3.Floor(3)
+	r2.Floor(5)
+	r3.Floor(2)
 	nSet := 0
 	for _, f := range c.Funcs {
 		eachInstr(f, func(in ssa.Instruction) {
